@@ -43,3 +43,590 @@ pub proof fn lemma_ext_dens(o: Seq<BddNode>, n: Seq<BddNode>, r: Seq<Term>)
     assert forall|i: int| 0 <= i < r.len() implies den(n, r[i].0 as int) == den(o, r[i].0 as int) by { lemma_ext_den(o, n, r[i].0 as int); }
     assert(dens(n, r) =~= dens(o, r));
 }
+// ================= completeness of the search (C05: "no model is lost") =================
+pub open spec fn two_valued(m: Seq<Term>) -> bool { forall|j: int| 0 <= j < m.len() ==> decided(#[trigger] m[j]) }
+// m keeps every decided entry of c (m refines c)
+pub open spec fn le_tv(c: Seq<Term>, m: Seq<Term>) -> bool { m.len() == c.len() && forall|p: int| 0 <= p < c.len() && decided(#[trigger] c[p]) ==> m[p] == c[p] }
+// a two-valued interpretation as a total assignment over u32 positions (nogood side) / over usize variables (diagram side)
+pub open spec fn ta(m: Seq<Term>) -> TA { |x: u32| (x as int) < m.len() && m[x as int].0 == 1 }
+pub open spec fn masg(m: Seq<Term>) -> Asg { asg_of(tvs(m)) }
+pub proof fn lemma_le_ext_tv(c: Seq<Term>, m: Seq<Term>)
+    requires two_valued(m), m.len() == c.len(), c.len() <= u32::MAX,
+    ensures le_tv(c, m) == ext_tv(ta(m), c)
+{
+    if le_tv(c, m) { assert forall|p: int| 0 <= p < c.len() && !und(#[trigger] c[p]) implies ta(m)(p as u32) == (c[p].0 == 1) by { assert(decided(c[p])); } }
+    if ext_tv(ta(m), c) { assert forall|p: int| 0 <= p < c.len() && decided(#[trigger] c[p]) implies m[p] == c[p] by { assert(!und(c[p])); assert(ta(m)(p as u32) == (c[p].0 == 1)); assert(decided(m[p])); } }
+}
+pub proof fn lemma_le_trans(a: Seq<Term>, b: Seq<Term>, c: Seq<Term>)
+    requires le_tv(a, b), le_tv(b, c),
+    ensures le_tv(a, c)
+{
+    assert forall|p: int| 0 <= p < a.len() && decided(#[trigger] a[p]) implies c[p] == a[p] by { assert(b[p] == a[p]); assert(decided(b[p])); }
+}
+// restricting by the decided entries of c does not change the value at an assignment that refines c
+pub proof fn lemma_cof_refines(f: BF, c: Seq<Term>, m: Seq<Term>)
+    requires le_tv(c, m), two_valued(m), c.len() < usize::MAX,
+    ensures cof(f, c, c.len() as int)(masg(m)) == f(masg(m))
+{
+    lemma_cof_eval(f, c, c.len() as int, masg(m));
+    assert forall|x: usize| #[trigger] ovr(masg(m), c, c.len() as int)(x) == masg(m)(x) by {
+        if (x as int) < c.len() && decided(c[x as int]) { assert(m[x as int] == c[x as int]); }
+    }
+    assert(ovr(masg(m), c, c.len() as int) =~= masg(m));
+}
+// a stable model is a two-valued model: every condition evaluates to the statement's own value
+pub proof fn lemma_stable_model(fs: Seq<BF>, m: Seq<Term>, p: int)
+    requires good_result(fs, m), m.len() < usize::MAX, 0 <= p < m.len(),
+    ensures fs[p](masg(m)) == (m[p].0 == 1)
+{
+    lemma_stable_is_fix(fs, m);
+    assert(total(tvs(m))) by { assert forall|i: int| 0 <= i < tvs(m).len() implies (#[trigger] tvs(m)[i]).is_some() by { assert(decided(m[i])); } }
+    lemma_total_fix_is_model(fs, tvs(m), p);
+    assert(decided(m[p]));
+}
+// the undecided entries of c are diagrams that agree with the original conditions on every assignment refining c
+pub open spec fn tracks_m(nodes: Seq<BddNode>, fs: Seq<BF>, c: Seq<Term>, m: Seq<Term>) -> bool {
+    forall|p: int| 0 <= p < c.len() && und(#[trigger] c[p]) ==> den(nodes, c[p].0 as int)(masg(m)) == fs[p](masg(m))
+}
+pub open spec fn tracks(nodes: Seq<BddNode>, fs: Seq<BF>, c: Seq<Term>) -> bool {
+    forall|m: Seq<Term>| two_valued(m) && #[trigger] le_tv(c, m) ==> tracks_m(nodes, fs, c, m)
+}
+pub open spec fn handles_in(nodes: Seq<BddNode>, c: Seq<Term>) -> bool { forall|j: int| 0 <= j < c.len() ==> (#[trigger] c[j]).0 < nodes.len() }
+pub proof fn lemma_tracks_ext(o: Seq<BddNode>, n: Seq<BddNode>, fs: Seq<BF>, c: Seq<Term>)
+    requires tracks(o, fs, c), ext(o, n), handles_in(o, c),
+    ensures tracks(n, fs, c)
+{
+    assert forall|m: Seq<Term>| two_valued(m) && #[trigger] le_tv(c, m) implies tracks_m(n, fs, c, m) by {
+        assert(tracks_m(o, fs, c, m));
+        assert forall|p: int| 0 <= p < c.len() && und(#[trigger] c[p]) implies den(n, c[p].0 as int)(masg(m)) == fs[p](masg(m)) by { lemma_ext_den(o, n, c[p].0 as int); }
+    }
+}
+// an entry set to a truth value, the others kept: still tracking
+pub proof fn lemma_tracks_more_decided(nodes: Seq<BddNode>, fs: Seq<BF>, c: Seq<Term>, c2: Seq<Term>)
+    requires tracks(nodes, fs, c), c2.len() == c.len(), le_tv(c, c2), forall|p: int| 0 <= p < c.len() && und(#[trigger] c2[p]) ==> c2[p] == c[p],
+    ensures tracks(nodes, fs, c2)
+{
+    assert forall|m: Seq<Term>| two_valued(m) && #[trigger] le_tv(c2, m) implies tracks_m(nodes, fs, c2, m) by {
+        lemma_le_trans(c, c2, m);
+        assert(tracks_m(nodes, fs, c, m));
+        assert forall|p: int| 0 <= p < c2.len() && und(#[trigger] c2[p]) implies den(nodes, c2[p].0 as int)(masg(m)) == fs[p](masg(m)) by { assert(c2[p] == c[p]); assert(und(c[p])); }
+    }
+}
+// one update step (every entry restricted by the decided entries): decided entries stay (canonicity), tracking is kept,
+// and every stable model that refined the old vector refines the new one
+pub proof fn lemma_update_step(o: Seq<BddNode>, n: Seq<BddNode>, fs: Seq<BF>, c: Seq<Term>, c2: Seq<Term>)
+    requires
+        nodes_wf(n), nodup(n), ext(o, n), handles_in(o, c), handles_in(n, c2), c2.len() == c.len(), c.len() == fs.len(), c.len() < usize::MAX, o.len() >= 2,
+        forall|i: int| 0 <= i < c.len() ==> den(n, (#[trigger] c2[i]).0 as int) == cof(den(o, c[i].0 as int), c, c.len() as int),
+        tracks(o, fs, c),
+    ensures
+        le_tv(c, c2), tracks(n, fs, c2),
+        forall|m: Seq<Term>| #[trigger] good_result(fs, m) && le_tv(c, m) ==> le_tv(c2, m),
+{
+    let k = c.len() as int;
+    assert forall|p: int| 0 <= p < k && decided(#[trigger] c[p]) implies c2[p] == c[p] by {
+        lemma_cof_const(c[p].0 == 1, c, k);
+        lemma_ext_den(o, n, c[p].0 as int);
+        lemma_canon(n, c2[p].0 as int, c[p].0 as int);
+    }
+    assert forall|m: Seq<Term>| two_valued(m) && #[trigger] le_tv(c2, m) implies tracks_m(n, fs, c2, m) by {
+        assert forall|p: int| 0 <= p < k && und(#[trigger] c2[p]) implies den(n, c2[p].0 as int)(masg(m)) == fs[p](masg(m)) by {
+            // m refines c as well: a decided entry of c is unchanged in c2
+            assert(le_tv(c, m)) by { assert forall|q: int| 0 <= q < k && decided(#[trigger] c[q]) implies m[q] == c[q] by { assert(c2[q] == c[q]); } }
+            assert(und(c[p])) by { if decided(c[p]) { assert(c2[p] == c[p]); } }
+            assert(tracks_m(o, fs, c, m));
+            lemma_cof_refines(den(o, c[p].0 as int), c, m);
+        }
+    }
+    assert forall|m: Seq<Term>| #[trigger] good_result(fs, m) && le_tv(c, m) implies le_tv(c2, m) by {
+        assert forall|p: int| 0 <= p < k && decided(#[trigger] c2[p]) implies m[p] == c2[p] by {
+            if decided(c[p]) { assert(c2[p] == c[p]); } else {
+                assert(two_valued(m));
+                assert(tracks_m(o, fs, c, m));
+                assert(und(c[p]));
+                lemma_cof_refines(den(o, c[p].0 as int), c, m);
+                lemma_stable_model(fs, m, p);
+                // den(n, c2[p]) is the constant c2[p], and it equals fs[p] at m
+                assert(den(n, c2[p].0 as int)(masg(m)) == fs[p](masg(m)));
+                lemma_den_const(n, c2[p]);
+                assert(decided(m[p]));
+            }
+        }
+    }
+}
+pub proof fn lemma_den_const(nodes: Seq<BddNode>, t: Term)
+    requires decided(t),
+    ensures forall|a: Asg| #[trigger] den(nodes, t.0 as int)(a) == (t.0 == 1)
+{ lemma_const_eval(); }
+// a statement whose condition, restricted by c, is the constant opposite to the statement's own decided value: no stable model refines c
+pub proof fn lemma_ac_inconsistent(n: Seq<BddNode>, fs: Seq<BF>, c: Seq<Term>, acc: Seq<Term>, p: int)
+    requires c.len() == fs.len(), c.len() < usize::MAX, acc.len() == c.len(), 0 <= p < c.len(),
+        den(n, acc[p].0 as int) == cof(fs[p], c, c.len() as int),
+        decided(c[p]), decided(acc[p]), (c[p].0 == 1) != (acc[p].0 == 1),
+    ensures forall|m: Seq<Term>| #[trigger] good_result(fs, m) ==> !le_tv(c, m)
+{
+    assert forall|m: Seq<Term>| #[trigger] good_result(fs, m) implies !le_tv(c, m) by {
+        if le_tv(c, m) {
+            assert(two_valued(m));
+            lemma_cof_refines(fs[p], c, m);
+            lemma_stable_model(fs, m, p);
+            lemma_den_const(n, acc[p]);
+            assert(m[p] == c[p]);
+        }
+    }
+}
+// ---- the combinatorial state of the search
+pub ghost struct SS {
+    pub fs: Seq<BF>,                   // the conditions' functions
+    pub cur: Seq<Term>,                // cur_interpr
+    pub stack: Seq<(bool, NoGood)>,    // stack
+    pub hist: Seq<Seq<Term>>,          // interpr_history
+    pub hpos: Seq<int>,                // ghost: stack position of the l-th choice entry
+    pub store: Seq<Vec<NoGood>>,       // ng_store.store
+    pub sent: Seq<Seq<Term>>,          // results sent by this call
+    pub bt: bool,                      // a backtrack is due: nothing unsent is left below cur
+}
+pub open spec fn unsent_stable(s: SS, m: Seq<Term>) -> bool { good_result(s.fs, m) && !s.sent.contains(m) }
+pub open spec fn below_ng(g: &NoGood, tv: Seq<Term>) -> bool {
+    forall|x: u32| #[trigger] g.act().contains(x) ==> (x as int) < tv.len() && decided(tv[x as int]) && (g.val().contains(x) == (tv[x as int].0 == 1))
+}
+pub open spec fn shape_ok(s: SS) -> bool {
+    &&& s.fs.len() <= u32::MAX && s.cur.len() == s.fs.len()
+    &&& forall|l: int| 0 <= l < s.hist.len() ==> (#[trigger] s.hist[l]).len() == s.fs.len()
+    &&& store_wf(s.store) && s.store.len() == s.fs.len()
+    &&& stack_ok(s.stack, s.fs.len() as int)
+}
+pub open spec fn pos_ok(s: SS) -> bool {
+    &&& s.hpos.len() == s.hist.len()
+    &&& forall|l: int| 0 <= l < s.hpos.len() ==> 0 <= #[trigger] s.hpos[l] < s.stack.len() && s.stack[s.hpos[l]].0
+    &&& forall|l: int, l2: int| 0 <= l < l2 < s.hpos.len() ==> #[trigger] s.hpos[l] < #[trigger] s.hpos[l2]
+    &&& forall|j: int| 0 <= j < s.stack.len() && (#[trigger] s.stack[j]).0 ==> exists|l: int| 0 <= l < s.hpos.len() && s.hpos[l] == j
+}
+pub open spec fn nest_ok(s: SS) -> bool {
+    &&& forall|i: int, j: int| 0 <= i < j < s.stack.len() ==> (#[trigger] s.stack[i]).1.matches(&(#[trigger] s.stack[j]).1)
+    &&& forall|j: int| 0 <= j < s.stack.len() ==> below_ng(&(#[trigger] s.stack[j]).1, s.cur)
+    &&& forall|l: int, j: int| 0 <= l < s.hpos.len() && 0 <= j < s.hpos[l] ==> below_ng(&(#[trigger] s.stack[j]).1, #[trigger] s.hist[l])
+}
+pub open spec fn safe(s: SS) -> bool { forall|m: Seq<Term>| #[trigger] unsent_stable(s, m) ==> avoids_all(ta(m), s.store) }
+pub open spec fn pending_at(s: SS, m: Seq<Term>, l: int) -> bool { 0 <= l < s.hist.len() && le_tv(s.hist[l], m) && !ext_of(ta(m), &s.stack[s.hpos[l]].1) }
+pub open spec fn pending(s: SS, m: Seq<Term>) -> bool { exists|l: int| pending_at(s, m, l) }
+pub open spec fn cov(s: SS) -> bool { forall|m: Seq<Term>| #[trigger] unsent_stable(s, m) ==> (!s.bt && le_tv(s.cur, m)) || pending(s, m) }
+#[verifier::opaque]
+pub open spec fn inv(s: SS) -> bool { shape_ok(s) && pos_ok(s) && nest_ok(s) && safe(s) && cov(s) }
+
+pub proof fn lemma_below_le(g: &NoGood, a: Seq<Term>, b: Seq<Term>)
+    requires below_ng(g, a), le_tv(a, b),
+    ensures below_ng(g, b)
+{
+    assert forall|x: u32| #[trigger] g.act().contains(x) implies (x as int) < b.len() && decided(b[x as int]) && (g.val().contains(x) == (b[x as int].0 == 1)) by {
+        assert(g.val().contains(x) == (a[x as int].0 == 1)); assert(decided(a[x as int])); assert(b[x as int] == a[x as int]);
+    }
+}
+pub proof fn lemma_below_matches(g: &NoGood, tv: Seq<Term>, h: &NoGood)
+    requires below_ng(g, tv), is_tv(h, tv),
+    ensures g.matches(h)
+{
+    assert forall|x: u32| g.act().contains(x) implies h.act().contains(x) && (g.val().contains(x) == h.val().contains(x)) by { assert(g.val().contains(x) == (tv[x as int].0 == 1)); }
+}
+pub proof fn lemma_tv_below(h: &NoGood, tv: Seq<Term>)
+    requires is_tv(h, tv),
+    ensures below_ng(h, tv)
+{ }
+// for a two-valued m: the nogood read off c is contained in m  <==>  m refines c
+pub proof fn lemma_ext_of_le(g: &NoGood, c: Seq<Term>, m: Seq<Term>)
+    requires is_tv(g, c), two_valued(m), m.len() == c.len(), c.len() <= u32::MAX,
+    ensures ext_of(ta(m), g) == le_tv(c, m)
+{ lemma_ext_tv(ta(m), g, c); lemma_le_ext_tv(c, m); }
+// ---- transitions
+// (1) branch: remember cur, decide var := term, push the choice entry
+pub open spec fn t_choice(s: SS, var: int, term: Term, g: NoGood) -> SS {
+    SS { cur: s.cur.update(var, term), stack: s.stack.push((true, g)), hist: s.hist.push(s.cur), hpos: s.hpos.push(s.stack.len() as int), ..s }
+}
+pub proof fn lemma_t_choice(s: SS, var: int, term: Term, g: NoGood)
+    requires inv(s), !s.bt, 0 <= var < s.cur.len(), und(s.cur[var]), decided(term), is_tv(&g, s.cur.update(var, term)), wf_ng(&g),
+    ensures inv(t_choice(s, var, term, g))
+{
+    reveal(inv);
+    let s2 = t_choice(s, var, term, g);
+    let c2 = s.cur.update(var, term);
+    let k = s.stack.len() as int;
+    assert(le_tv(s.cur, c2));
+    lemma_tv_act_len(&g, c2);
+    assert(shape_ok(s2)) by {
+        assert forall|l: int| 0 <= l < s2.hist.len() implies (#[trigger] s2.hist[l]).len() == s2.fs.len() by { if l < s.hist.len() { assert(s2.hist[l] == s.hist[l]); } }
+        assert forall|j: int| 0 <= j < s2.stack.len() implies wf_ng(&(#[trigger] s2.stack[j]).1) && s2.stack[j].1.act().len() <= s2.fs.len() by { if j < k { assert(s2.stack[j] == s.stack[j]); } }
+    }
+    assert(pos_ok(s2)) by {
+        assert forall|l: int| 0 <= l < s2.hpos.len() implies 0 <= #[trigger] s2.hpos[l] < s2.stack.len() && s2.stack[s2.hpos[l]].0 by { if l < s.hpos.len() { assert(s2.hpos[l] == s.hpos[l]); assert(s2.stack[s.hpos[l]] == s.stack[s.hpos[l]]); } }
+        assert forall|l: int, l2: int| 0 <= l < l2 < s2.hpos.len() implies #[trigger] s2.hpos[l] < #[trigger] s2.hpos[l2] by { assert(s2.hpos[l] == s.hpos[l]); if l2 < s.hpos.len() { assert(s2.hpos[l2] == s.hpos[l2]); } }
+        assert forall|j: int| 0 <= j < s2.stack.len() && (#[trigger] s2.stack[j]).0 implies exists|l: int| 0 <= l < s2.hpos.len() && s2.hpos[l] == j by {
+            if j < k { assert(s2.stack[j] == s.stack[j]); let l = choose|l: int| 0 <= l < s.hpos.len() && s.hpos[l] == j; assert(s2.hpos[l] == j); } else { assert(s2.hpos[s.hpos.len() as int] == j); }
+        }
+    }
+    assert(nest_ok(s2)) by {
+        lemma_tv_below(&g, c2);
+        assert forall|j: int| 0 <= j < s2.stack.len() implies below_ng(&(#[trigger] s2.stack[j]).1, s2.cur) by { if j < k { assert(s2.stack[j] == s.stack[j]); lemma_below_le(&s.stack[j].1, s.cur, c2); } }
+        assert forall|i: int, j: int| 0 <= i < j < s2.stack.len() implies (#[trigger] s2.stack[i]).1.matches(&(#[trigger] s2.stack[j]).1) by {
+            assert(s2.stack[i] == s.stack[i]);
+            if j < k { assert(s2.stack[j] == s.stack[j]); } else { lemma_below_le(&s.stack[i].1, s.cur, c2); lemma_below_matches(&s.stack[i].1, c2, &g); }
+        }
+        assert forall|l: int, j: int| 0 <= l < s2.hpos.len() && 0 <= j < s2.hpos[l] implies below_ng(&(#[trigger] s2.stack[j]).1, #[trigger] s2.hist[l]) by {
+            assert(s2.stack[j] == s.stack[j]);
+            if l < s.hpos.len() { assert(s2.hpos[l] == s.hpos[l]); assert(s2.hist[l] == s.hist[l]); } else { assert(s2.hist[l] == s.cur); }
+        }
+    }
+    assert(safe(s2)) by { assert forall|m: Seq<Term>| #[trigger] unsent_stable(s2, m) implies avoids_all(ta(m), s2.store) by { assert(unsent_stable(s, m)); } }
+    assert(cov(s2)) by {
+        assert forall|m: Seq<Term>| #[trigger] unsent_stable(s2, m) implies (!s2.bt && le_tv(s2.cur, m)) || pending(s2, m) by {
+            assert(unsent_stable(s, m));
+            if le_tv(s.cur, m) {
+                if !le_tv(c2, m) {
+                    let l = s.hist.len() as int;
+                    lemma_ext_of_le(&g, c2, m);
+                    assert(s2.hist[l] == s.cur); assert(s2.hpos[l] == k); assert(s2.stack[k].1 == g);
+                    assert(pending_at(s2, m, l));
+                }
+            } else {
+                let l = choose|l: int| pending_at(s, m, l);
+                assert(s2.hist[l] == s.hist[l]); assert(s2.hpos[l] == s.hpos[l]); assert(s2.stack[s.hpos[l]] == s.stack[s.hpos[l]]);
+                assert(pending_at(s2, m, l));
+            }
+        }
+    }
+}
+// (2) nogood propagation changed cur to v (only forced literals): push the propagation entry
+pub open spec fn t_prop(s: SS, v: Seq<Term>, g: NoGood) -> SS { SS { cur: v, stack: s.stack.push((false, g)), ..s } }
+pub proof fn lemma_t_prop(s: SS, v: Seq<Term>, g: NoGood)
+    requires inv(s), !s.bt, tv_forced_ext(s.store, s.cur, v), is_tv(&g, v), wf_ng(&g),
+    ensures inv(t_prop(s, v, g)), le_tv(s.cur, v)
+{
+    reveal(inv);
+    let s2 = t_prop(s, v, g);
+    let k = s.stack.len() as int;
+    assert(le_tv(s.cur, v)) by { assert forall|p: int| 0 <= p < s.cur.len() && decided(#[trigger] s.cur[p]) implies v[p] == s.cur[p] by { assert(!und(s.cur[p])); } }
+    lemma_tv_act_len(&g, v);
+    assert(shape_ok(s2)) by {
+        assert forall|j: int| 0 <= j < s2.stack.len() implies wf_ng(&(#[trigger] s2.stack[j]).1) && s2.stack[j].1.act().len() <= s2.fs.len() by { if j < k { assert(s2.stack[j] == s.stack[j]); } }
+    }
+    assert(pos_ok(s2)) by {
+        assert forall|l: int| 0 <= l < s2.hpos.len() implies 0 <= #[trigger] s2.hpos[l] < s2.stack.len() && s2.stack[s2.hpos[l]].0 by { assert(s2.stack[s.hpos[l]] == s.stack[s.hpos[l]]); }
+        assert forall|j: int| 0 <= j < s2.stack.len() && (#[trigger] s2.stack[j]).0 implies exists|l: int| 0 <= l < s2.hpos.len() && s2.hpos[l] == j by { assert(j < k); assert(s2.stack[j] == s.stack[j]); }
+    }
+    assert(nest_ok(s2)) by {
+        lemma_tv_below(&g, v);
+        assert forall|j: int| 0 <= j < s2.stack.len() implies below_ng(&(#[trigger] s2.stack[j]).1, s2.cur) by { if j < k { assert(s2.stack[j] == s.stack[j]); lemma_below_le(&s.stack[j].1, s.cur, v); } }
+        assert forall|i: int, j: int| 0 <= i < j < s2.stack.len() implies (#[trigger] s2.stack[i]).1.matches(&(#[trigger] s2.stack[j]).1) by {
+            assert(s2.stack[i] == s.stack[i]);
+            if j < k { assert(s2.stack[j] == s.stack[j]); } else { lemma_below_le(&s.stack[i].1, s.cur, v); lemma_below_matches(&s.stack[i].1, v, &g); }
+        }
+        assert forall|l: int, j: int| 0 <= l < s2.hpos.len() && 0 <= j < s2.hpos[l] implies below_ng(&(#[trigger] s2.stack[j]).1, #[trigger] s2.hist[l]) by { assert(s2.stack[j] == s.stack[j]); }
+    }
+    assert(safe(s2)) by { assert forall|m: Seq<Term>| #[trigger] unsent_stable(s2, m) implies avoids_all(ta(m), s2.store) by { assert(unsent_stable(s, m)); } }
+    assert(cov(s2)) by {
+        assert forall|m: Seq<Term>| #[trigger] unsent_stable(s2, m) implies (!s2.bt && le_tv(s2.cur, m)) || pending(s2, m) by {
+            assert(unsent_stable(s, m));
+            if le_tv(s.cur, m) {
+                assert(two_valued(m));
+                lemma_le_ext_tv(s.cur, m); lemma_forced_ext_keeps(s.store, s.cur, v, ta(m)); lemma_le_ext_tv(v, m);
+            } else {
+                let l = choose|l: int| pending_at(s, m, l);
+                assert(s2.stack[s.hpos[l]] == s.stack[s.hpos[l]]);
+                assert(pending_at(s2, m, l));
+            }
+        }
+    }
+}
+// (3) cur replaced by a refinement that loses no stable model (one update step)
+pub open spec fn t_upd(s: SS, c2: Seq<Term>) -> SS { SS { cur: c2, ..s } }
+pub proof fn lemma_t_upd(s: SS, c2: Seq<Term>)
+    requires inv(s), !s.bt, le_tv(s.cur, c2), forall|m: Seq<Term>| #[trigger] good_result(s.fs, m) && le_tv(s.cur, m) ==> le_tv(c2, m),
+    ensures inv(t_upd(s, c2))
+{
+    reveal(inv);
+    let s2 = t_upd(s, c2);
+    assert(nest_ok(s2)) by { assert forall|j: int| 0 <= j < s2.stack.len() implies below_ng(&(#[trigger] s2.stack[j]).1, s2.cur) by { lemma_below_le(&s.stack[j].1, s.cur, c2); } }
+    assert(safe(s2)) by { assert forall|m: Seq<Term>| #[trigger] unsent_stable(s2, m) implies avoids_all(ta(m), s2.store) by { assert(unsent_stable(s, m)); } }
+    assert(cov(s2)) by {
+        assert forall|m: Seq<Term>| #[trigger] unsent_stable(s2, m) implies (!s2.bt && le_tv(s2.cur, m)) || pending(s2, m) by {
+            assert(unsent_stable(s, m));
+            if le_tv(s.cur, m) { } else { let l = choose|l: int| pending_at(s, m, l); assert(pending_at(s2, m, l)); }
+        }
+    }
+}
+// (4) nothing unsent refines cur: a backtrack is due
+pub open spec fn t_bt(s: SS) -> SS { SS { bt: true, ..s } }
+pub proof fn lemma_t_bt(s: SS)
+    requires inv(s), forall|m: Seq<Term>| #[trigger] unsent_stable(s, m) ==> !le_tv(s.cur, m),
+    ensures inv(t_bt(s))
+{
+    reveal(inv);
+    let s2 = t_bt(s);
+    assert(safe(s2)) by { assert forall|m: Seq<Term>| #[trigger] unsent_stable(s2, m) implies avoids_all(ta(m), s2.store) by { assert(unsent_stable(s, m)); } }
+    assert(cov(s2)) by {
+        assert forall|m: Seq<Term>| #[trigger] unsent_stable(s2, m) implies (!s2.bt && le_tv(s2.cur, m)) || pending(s2, m) by {
+            assert(unsent_stable(s, m));
+            let l = choose|l: int| pending_at(s, m, l); assert(pending_at(s2, m, l));
+        }
+    }
+}
+// (5) cur is two-valued and settled: it is recorded (pushed), sent if it is a stable model, and a backtrack is due
+pub open spec fn t_leaf(s: SS, g: NoGood, send: bool) -> SS {
+    SS { stack: s.stack.push((false, g)), sent: if send { s.sent.push(s.cur) } else { s.sent }, bt: true, ..s }
+}
+pub proof fn lemma_t_leaf(s: SS, g: NoGood, send: bool)
+    requires inv(s), !s.bt, two_valued(s.cur), is_tv(&g, s.cur), wf_ng(&g), send == good_result(s.fs, s.cur),
+    ensures inv(t_leaf(s, g, send))
+{
+    reveal(inv);
+    let s2 = t_leaf(s, g, send);
+    let k = s.stack.len() as int;
+    lemma_tv_act_len(&g, s.cur);
+    assert forall|m: Seq<Term>| #[trigger] unsent_stable(s2, m) implies unsent_stable(s, m) by {
+        if s.sent.contains(m) { let i = choose|i: int| 0 <= i < s.sent.len() && s.sent[i] == m; assert(s2.sent[i] == m); }
+    }
+    assert(shape_ok(s2)) by {
+        assert forall|j: int| 0 <= j < s2.stack.len() implies wf_ng(&(#[trigger] s2.stack[j]).1) && s2.stack[j].1.act().len() <= s2.fs.len() by { if j < k { assert(s2.stack[j] == s.stack[j]); } }
+    }
+    assert(pos_ok(s2)) by {
+        assert forall|l: int| 0 <= l < s2.hpos.len() implies 0 <= #[trigger] s2.hpos[l] < s2.stack.len() && s2.stack[s2.hpos[l]].0 by { assert(s2.stack[s.hpos[l]] == s.stack[s.hpos[l]]); }
+        assert forall|j: int| 0 <= j < s2.stack.len() && (#[trigger] s2.stack[j]).0 implies exists|l: int| 0 <= l < s2.hpos.len() && s2.hpos[l] == j by { assert(j < k); assert(s2.stack[j] == s.stack[j]); }
+    }
+    assert(nest_ok(s2)) by {
+        lemma_tv_below(&g, s.cur);
+        assert forall|j: int| 0 <= j < s2.stack.len() implies below_ng(&(#[trigger] s2.stack[j]).1, s2.cur) by { if j < k { assert(s2.stack[j] == s.stack[j]); } }
+        assert forall|i: int, j: int| 0 <= i < j < s2.stack.len() implies (#[trigger] s2.stack[i]).1.matches(&(#[trigger] s2.stack[j]).1) by {
+            assert(s2.stack[i] == s.stack[i]);
+            if j < k { assert(s2.stack[j] == s.stack[j]); } else { lemma_below_matches(&s.stack[i].1, s.cur, &g); }
+        }
+        assert forall|l: int, j: int| 0 <= l < s2.hpos.len() && 0 <= j < s2.hpos[l] implies below_ng(&(#[trigger] s2.stack[j]).1, #[trigger] s2.hist[l]) by { assert(s2.stack[j] == s.stack[j]); }
+    }
+    assert(safe(s2)) by { assert forall|m: Seq<Term>| #[trigger] unsent_stable(s2, m) implies avoids_all(ta(m), s2.store) by { assert(unsent_stable(s, m)); } }
+    assert(cov(s2)) by {
+        assert forall|m: Seq<Term>| #[trigger] unsent_stable(s2, m) implies (!s2.bt && le_tv(s2.cur, m)) || pending(s2, m) by {
+            assert(unsent_stable(s, m));
+            if le_tv(s.cur, m) {
+                // a refinement of a two-valued vector is that vector
+                assert(m =~= s.cur) by { assert forall|p: int| 0 <= p < m.len() implies m[p] == s.cur[p] by { assert(decided(s.cur[p])); } }
+                if send { assert(s2.sent[s.sent.len() as int] == m); assert(s2.sent.contains(m)); }
+                assert(false);
+            } else {
+                let l = choose|l: int| pending_at(s, m, l);
+                assert(s2.stack[s.hpos[l]] == s.stack[s.hpos[l]]);
+                assert(pending_at(s2, m, l));
+            }
+        }
+    }
+}
+// every unsent stable model avoids the popped entry e: some choice entry below (or equal to) it already excludes the model
+pub proof fn lemma_pop_safe(s: SS, m: Seq<Term>)
+    requires inv(s), s.bt, s.stack.len() > 0, unsent_stable(s, m),
+    ensures !ext_of(ta(m), &s.stack.last().1)
+{
+    reveal(inv);
+    assert(pending(s, m));
+    let l = choose|l: int| pending_at(s, m, l);
+    let top = s.stack.len() - 1;
+    assert(0 <= s.hpos[l] <= top);
+    if s.hpos[l] < top { assert(s.stack[s.hpos[l]].1.matches(&s.stack[top].1)); if ext_of(ta(m), &s.stack[top].1) { lemma_matches_ext(&s.stack[s.hpos[l]].1, &s.stack[top].1, ta(m)); } }
+}
+pub open spec fn store_after(old_st: Seq<Vec<NoGood>>, new_st: Seq<Vec<NoGood>>, ng: &NoGood) -> bool {
+    &&& store_wf(new_st) && new_st.len() == old_st.len()
+    &&& ng.act().len() > 0 ==> excl_add(old_st, new_st, ng)
+    &&& ng.act().len() == 0 ==> new_st == old_st
+}
+// (6) backtracking pops a propagation / leaf entry into the store
+pub open spec fn t_pop(s: SS, st2: Seq<Vec<NoGood>>) -> SS { SS { stack: s.stack.drop_last(), store: st2, ..s } }
+pub proof fn lemma_t_pop(s: SS, st2: Seq<Vec<NoGood>>)
+    requires inv(s), s.bt, s.stack.len() > 0, !s.stack.last().0, store_after(s.store, st2, &s.stack.last().1),
+    ensures inv(t_pop(s, st2))
+{
+    reveal(inv);
+    let s2 = t_pop(s, st2);
+    let top = s.stack.len() - 1;
+    assert forall|l: int| 0 <= l < s.hpos.len() implies #[trigger] s.hpos[l] < top by { if s.hpos[l] == top { assert(s.stack[s.hpos[l]].0); } }
+    assert(shape_ok(s2)) by {
+        assert forall|j: int| 0 <= j < s2.stack.len() implies wf_ng(&(#[trigger] s2.stack[j]).1) && s2.stack[j].1.act().len() <= s2.fs.len() by { assert(s2.stack[j] == s.stack[j]); }
+    }
+    assert(pos_ok(s2)) by {
+        assert forall|l: int| 0 <= l < s2.hpos.len() implies 0 <= #[trigger] s2.hpos[l] < s2.stack.len() && s2.stack[s2.hpos[l]].0 by { assert(s.hpos[l] < top); assert(s2.stack[s.hpos[l]] == s.stack[s.hpos[l]]); }
+        assert forall|j: int| 0 <= j < s2.stack.len() && (#[trigger] s2.stack[j]).0 implies exists|l: int| 0 <= l < s2.hpos.len() && s2.hpos[l] == j by {
+            assert(s2.stack[j] == s.stack[j]); assert(s.stack[j].0);
+            let l = choose|l: int| 0 <= l < s.hpos.len() && s.hpos[l] == j; assert(s2.hpos[l] == j);
+        }
+    }
+    assert(nest_ok(s2)) by {
+        assert forall|j: int| 0 <= j < s2.stack.len() implies below_ng(&(#[trigger] s2.stack[j]).1, s2.cur) by { assert(s2.stack[j] == s.stack[j]); }
+        assert forall|i: int, j: int| 0 <= i < j < s2.stack.len() implies (#[trigger] s2.stack[i]).1.matches(&(#[trigger] s2.stack[j]).1) by { assert(s2.stack[i] == s.stack[i]); assert(s2.stack[j] == s.stack[j]); }
+        assert forall|l: int, j: int| 0 <= l < s2.hpos.len() && 0 <= j < s2.hpos[l] implies below_ng(&(#[trigger] s2.stack[j]).1, #[trigger] s2.hist[l]) by { assert(s.hpos[l] < top); assert(s2.stack[j] == s.stack[j]); }
+    }
+    lemma_pop_safe_cov(s, st2, s2, false);
+}
+// the store and coverage part of a pop (both kinds): s2 differs from s by the popped top entry, the store st2, and - for a
+// choice entry - the restored interpretation
+pub proof fn lemma_pop_safe_cov(s: SS, st2: Seq<Vec<NoGood>>, s2: SS, ch: bool)
+    requires inv(s), s.bt, s.stack.len() > 0, s.stack.last().0 == ch, store_after(s.store, st2, &s.stack.last().1),
+        s2 == (if ch { t_pop_choice(s, st2) } else { t_pop(s, st2) }),
+        ch ==> s.hist.len() > 0 && s.hpos.last() == s.stack.len() - 1,
+    ensures safe(s2), cov(s2)
+{
+    reveal(inv);
+    let top = s.stack.len() - 1;
+    let d = s.hist.len() - 1;
+    assert forall|m: Seq<Term>| #[trigger] unsent_stable(s2, m) implies avoids_all(ta(m), s2.store) by {
+        assert(unsent_stable(s, m)); lemma_pop_safe(s, m);
+        assert(avoids_all(ta(m), s.store));
+        if s.stack.last().1.act().len() > 0 { assert(avoids_all(ta(m), st2) == (avoids_all(ta(m), s.store) && !ext_of(ta(m), &s.stack.last().1))); }
+    }
+    assert forall|m: Seq<Term>| #[trigger] unsent_stable(s2, m) implies (!s2.bt && le_tv(s2.cur, m)) || pending(s2, m) by {
+        assert(unsent_stable(s, m));
+        assert(pending(s, m));
+        let l = choose|l: int| pending_at(s, m, l);
+        if ch && l == d { assert(le_tv(s2.cur, m)); }
+        else {
+            assert(s.hpos[l] < top) by { if ch { assert(s.hpos[l] < s.hpos[d]); } else if s.hpos[l] == top { assert(s.stack[s.hpos[l]].0); } }
+            assert(s2.stack[s.hpos[l]] == s.stack[s.hpos[l]]);
+            assert(s2.hist[l] == s.hist[l]); assert(s2.hpos[l] == s.hpos[l]);
+            assert(pending_at(s2, m, l));
+        }
+    }
+}
+// (7) backtracking pops the topmost choice entry: the remembered interpretation is restored, the models that did not
+// follow the choice are now below cur
+pub open spec fn t_pop_choice(s: SS, st2: Seq<Vec<NoGood>>) -> SS {
+    SS { stack: s.stack.drop_last(), store: st2, cur: s.hist.last(), hist: s.hist.drop_last(), hpos: s.hpos.drop_last(), bt: false, ..s }
+}
+pub proof fn lemma_top_choice(s: SS)
+    requires pos_ok(s), s.stack.len() > 0, s.stack.last().0,
+    ensures s.hist.len() > 0, s.hpos.last() == s.stack.len() - 1
+{
+    let top = s.stack.len() - 1;
+    assert(s.stack[top].0);
+    let l = choose|l: int| 0 <= l < s.hpos.len() && s.hpos[l] == top;
+    if l < s.hpos.len() - 1 { assert(s.hpos[l] < s.hpos[s.hpos.len() - 1]); }
+}
+pub proof fn lemma_t_pop_choice(s: SS, st2: Seq<Vec<NoGood>>)
+    requires inv(s), s.bt, s.stack.len() > 0, s.stack.last().0, store_after(s.store, st2, &s.stack.last().1),
+    ensures inv(t_pop_choice(s, st2)), s.hist.len() > 0
+{
+    reveal(inv);
+    lemma_top_choice(s);
+    let s2 = t_pop_choice(s, st2);
+    let top = s.stack.len() - 1;
+    let d = s.hist.len() - 1;
+    assert forall|l: int| 0 <= l < d implies #[trigger] s.hpos[l] < top by { assert(s.hpos[l] < s.hpos[d]); }
+    assert(shape_ok(s2)) by {
+        assert forall|l: int| 0 <= l < s2.hist.len() implies (#[trigger] s2.hist[l]).len() == s2.fs.len() by { assert(s2.hist[l] == s.hist[l]); }
+        assert(s.hist[d].len() == s.fs.len());
+        assert forall|j: int| 0 <= j < s2.stack.len() implies wf_ng(&(#[trigger] s2.stack[j]).1) && s2.stack[j].1.act().len() <= s2.fs.len() by { assert(s2.stack[j] == s.stack[j]); }
+    }
+    assert(pos_ok(s2)) by {
+        assert forall|l: int| 0 <= l < s2.hpos.len() implies 0 <= #[trigger] s2.hpos[l] < s2.stack.len() && s2.stack[s2.hpos[l]].0 by { assert(s2.hpos[l] == s.hpos[l]); assert(s.hpos[l] < top); assert(s2.stack[s.hpos[l]] == s.stack[s.hpos[l]]); }
+        assert forall|l: int, l2: int| 0 <= l < l2 < s2.hpos.len() implies #[trigger] s2.hpos[l] < #[trigger] s2.hpos[l2] by { assert(s2.hpos[l] == s.hpos[l]); assert(s2.hpos[l2] == s.hpos[l2]); }
+        assert forall|j: int| 0 <= j < s2.stack.len() && (#[trigger] s2.stack[j]).0 implies exists|l: int| 0 <= l < s2.hpos.len() && s2.hpos[l] == j by {
+            assert(s2.stack[j] == s.stack[j]);
+            let l = choose|l: int| 0 <= l < s.hpos.len() && s.hpos[l] == j;
+            assert(l < d); assert(s2.hpos[l] == j);
+        }
+    }
+    assert(nest_ok(s2)) by {
+        assert forall|j: int| 0 <= j < s2.stack.len() implies below_ng(&(#[trigger] s2.stack[j]).1, s2.cur) by { assert(s2.stack[j] == s.stack[j]); assert(j < s.hpos[d]); }
+        assert forall|i: int, j: int| 0 <= i < j < s2.stack.len() implies (#[trigger] s2.stack[i]).1.matches(&(#[trigger] s2.stack[j]).1) by { assert(s2.stack[i] == s.stack[i]); assert(s2.stack[j] == s.stack[j]); }
+        assert forall|l: int, j: int| 0 <= l < s2.hpos.len() && 0 <= j < s2.hpos[l] implies below_ng(&(#[trigger] s2.stack[j]).1, #[trigger] s2.hist[l]) by { assert(s2.hpos[l] == s.hpos[l]); assert(s2.hist[l] == s.hist[l]); assert(s.hpos[l] < top); assert(s2.stack[j] == s.stack[j]); }
+    }
+    lemma_pop_safe_cov(s, st2, s2, true);
+}
+// (8) the stack is exhausted while a backtrack is due: nothing is left
+pub proof fn lemma_done(s: SS)
+    requires inv(s), s.bt, s.stack.len() == 0,
+    ensures forall|m: Seq<Term>| #[trigger] good_result(s.fs, m) ==> s.sent.contains(m)
+{
+    reveal(inv);
+    assert forall|m: Seq<Term>| #[trigger] good_result(s.fs, m) implies s.sent.contains(m) by {
+        if !s.sent.contains(m) { assert(unsent_stable(s, m)); let l = choose|l: int| pending_at(s, m, l); assert(0 <= s.hpos[l] < s.stack.len()); }
+    }
+}
+pub open spec fn t_resume(s: SS) -> SS { SS { bt: false, ..s } }
+pub proof fn lemma_t_resume(s: SS)
+    requires inv(s), s.bt, s.stack.len() == 0,
+    ensures inv(t_resume(s))
+{
+    reveal(inv);
+    lemma_done(s);
+    let s2 = t_resume(s);
+    assert(safe(s2)) by { assert forall|m: Seq<Term>| #[trigger] unsent_stable(s2, m) implies avoids_all(ta(m), s2.store) by { assert(unsent_stable(s, m)); } }
+    assert(cov(s2)) by { assert forall|m: Seq<Term>| #[trigger] unsent_stable(s2, m) implies (!s2.bt && le_tv(s2.cur, m)) || pending(s2, m) by { assert(good_result(s.fs, m)); assert(false); } }
+}
+// the start: everything refines the initial interpretation, nothing is stored, nothing was sent
+pub open spec fn s_init(fs: Seq<BF>, c: Seq<Term>, st: Seq<Vec<NoGood>>) -> SS {
+    SS { fs: fs, cur: c, stack: Seq::empty(), hist: Seq::empty(), hpos: Seq::empty(), store: st, sent: Seq::empty(), bt: false }
+}
+pub proof fn lemma_s_init(fs: Seq<BF>, c: Seq<Term>, st: Seq<Vec<NoGood>>)
+    requires fs.len() <= u32::MAX, c.len() == fs.len(), store_wf(st), st.len() == fs.len(), forall|b: int| 0 <= b < st.len() ==> (#[trigger] st[b])@.len() == 0,
+        forall|m: Seq<Term>| #[trigger] good_result(fs, m) ==> le_tv(c, m),
+    ensures inv(s_init(fs, c, st))
+{
+    reveal(inv);
+    let s = s_init(fs, c, st);
+    assert(safe(s)) by { assert forall|m: Seq<Term>| #[trigger] unsent_stable(s, m) implies avoids_all(ta(m), s.store) by { } }
+    assert(cov(s)) by { assert forall|m: Seq<Term>| #[trigger] unsent_stable(s, m) implies (!s.bt && le_tv(s.cur, m)) || pending(s, m) by { assert(good_result(fs, m)); } }
+}
+// ---- glue between the program variables and the ghost state
+pub open spec fn hview(h: Seq<Vec<Term>>) -> Seq<Seq<Term>> { Seq::new(h.len(), |i: int| h[i]@) }
+pub open spec fn noref(s: SS) -> bool { forall|m: Seq<Term>| #[trigger] unsent_stable(s, m) ==> !le_tv(s.cur, m) }
+pub proof fn lemma_incons(s: SS)
+    requires inv(s), tv_no_extension(s.store, s.cur),
+    ensures noref(s)
+{
+    reveal(inv);
+    assert forall|m: Seq<Term>| #[trigger] unsent_stable(s, m) implies !le_tv(s.cur, m) by {
+        if le_tv(s.cur, m) { assert(two_valued(m)); lemma_le_ext_tv(s.cur, m); assert(avoids_all(ta(m), s.store)); }
+    }
+}
+pub open spec fn ac_bad(c: Seq<Term>, acc: Seq<Term>, p: int) -> bool {
+    0 <= p < c.len() && p < acc.len() && decided(c[p]) && decided(acc[p]) && (c[p].0 == 1) != (acc[p].0 == 1)
+}
+pub open spec fn all_track(nodes: Seq<BddNode>, fs: Seq<BF>, c: Seq<Term>, h: Seq<Vec<Term>>) -> bool {
+    &&& tracks(nodes, fs, c) && handles_in(nodes, c)
+    &&& forall|l: int| 0 <= l < h.len() ==> tracks(nodes, fs, (#[trigger] h[l])@) && handles_in(nodes, h[l]@)
+}
+pub proof fn lemma_all_track_ext(o: Seq<BddNode>, n: Seq<BddNode>, fs: Seq<BF>, c: Seq<Term>, h: Seq<Vec<Term>>)
+    requires all_track(o, fs, c, h), ext(o, n),
+    ensures all_track(n, fs, c, h)
+{
+    lemma_tracks_ext(o, n, fs, c);
+    assert forall|l: int| 0 <= l < h.len() implies tracks(n, fs, (#[trigger] h[l])@) && handles_in(n, h[l]@) by { lemma_tracks_ext(o, n, fs, h[l]@); }
+}
+// what the callers establish with the grounded interpretation: every entry is its condition restricted by the decided entries
+pub proof fn lemma_tracks_init(nodes: Seq<BddNode>, fs: Seq<BF>, c: Seq<Term>)
+    requires c.len() == fs.len(), c.len() < usize::MAX, forall|i: int| 0 <= i < c.len() ==> den(nodes, (#[trigger] c[i]).0 as int) == cof(fs[i], c, c.len() as int),
+    ensures tracks(nodes, fs, c)
+{
+    assert forall|m: Seq<Term>| two_valued(m) && #[trigger] le_tv(c, m) implies tracks_m(nodes, fs, c, m) by {
+        assert forall|p: int| 0 <= p < c.len() && und(#[trigger] c[p]) implies den(nodes, c[p].0 as int)(masg(m)) == fs[p](masg(m)) by { lemma_cof_refines(fs[p], c, m); }
+    }
+}
+// every stable model refines the grounded interpretation (the least fixpoint)
+pub proof fn lemma_stable_refines_lfp(fs: Seq<BF>, c: Seq<Term>)
+    requires is_lfp(fs, tvs(c)), c.len() == fs.len(), c.len() < usize::MAX,
+    ensures forall|m: Seq<Term>| #[trigger] good_result(fs, m) ==> le_tv(c, m)
+{
+    assert forall|m: Seq<Term>| #[trigger] good_result(fs, m) implies le_tv(c, m) by {
+        lemma_stable_is_fix(fs, m);
+        lemma_fix_refines_lfp(fs, tvs(c), tvs(m));
+        assert forall|p: int| 0 <= p < c.len() && decided(#[trigger] c[p]) implies m[p] == c[p] by { assert(tvs(c)[p].is_some()); assert(tvs(m)[p] == tvs(c)[p]); assert(decided(m[p])); }
+    }
+}
+// what the program needs from the invariant when it pops the top entry
+pub proof fn lemma_inv_top(s: SS)
+    requires inv(s), s.stack.len() > 0,
+    ensures wf_ng(&s.stack.last().1), s.stack.last().1.act().len() <= s.fs.len(), s.store.len() == s.fs.len(), store_wf(s.store),
+        s.stack.last().0 ==> s.hist.len() > 0 && s.hist.last().len() == s.fs.len(),
+{
+    reveal(inv);
+    assert(wf_ng(&s.stack[s.stack.len() - 1].1));
+    if s.stack.last().0 { lemma_top_choice(s); }
+}
+pub proof fn lemma_inv_shape(s: SS)
+    requires inv(s),
+    ensures s.cur.len() == s.fs.len(), s.store.len() == s.fs.len(), store_wf(s.store), s.fs.len() <= u32::MAX,
+{ reveal(inv); }
